@@ -216,6 +216,12 @@ Inductive op :=
 | TfMint (sender : acct) (d : denom) (x : Z) (to : acct)
 | TfBurn (sender : acct) (d : denom) (x : Z) (from : acct)
 | TfChangeAdmin (sender : acct) (d : denom) (new : acct)
+(* bridge messages reached THROUGH THE WASM PRECOMPILE: an EVM contract calls Wasm.execute on a CosmWasm contract [w]
+   (reflect.wasm) that re-dispatches the Stargate message with itself as signer, in the middle of the EVM transaction
+   (a plain bank MsgSend dispatched that way is [BankMsgSend w …]) *)
+| WasmConvert (w : acct) (d : denom) (x : Z) (to : acct)   (* MsgConvertCoinToEvm{sender: w} *)
+| WasmCreateCoin (w : acct) (d : denom)                    (* MsgCreateFunToken{from_bank_denom, sender: w} *)
+| WasmCreateErc20 (w : acct) (t : tok)                     (* MsgCreateFunToken{from_erc20, sender: w} *)
 | Framed (f : frame) (o : op)
 | Seq (o1 o2 : op).                              (* two operations in ONE transaction: both or nothing *)
 
@@ -368,6 +374,11 @@ Definition exec (s : st) (o : op) : option st :=
   | TfChangeAdmin sender d new =>
       _ <- guard (is_admin s d sender) ;;
       Some (set_tfadmin s (updD (tfadmin s) d (Some new)))
+  (* keeper/msg_server.go rejectWithinEvm: the message handlers of the EVM module run and COMMIT an EVM state transition of
+     their own; arriving on a context that descends from a precompile call (statedb.IsPrecompileCtx) they are refused *)
+  | WasmConvert _ _ _ _ => None
+  | WasmCreateCoin _ _ => None
+  | WasmCreateErc20 _ _ => None
   | Framed _ _ => None
   | Seq _ _ => None
   end.
@@ -426,3 +437,59 @@ Definition run_with (cn : denom -> denom) (c : create_denoms) (s : st) (ops : li
 (** * Observables of one mapping: ERC20 totalSupply, ERC20 balanceOf(module), bank supply, bank balance of the module *)
 Definition obs_map (s : st) (m : mapping) : Z * Z * Z * Z :=
   (esup s (m_tok m), ebal s (m_tok m) Module, supply s (m_den m), bank s Module (m_den m)).
+
+(** * Configuration switch: re-entry guards (re-read from the source on every run, Gen/C06Facts.v [current_reentry_guards])
+
+    [rg_ctx_marked]: StateDB.CacheCtxForPrecompile marks the context it hands to precompiles and IsPrecompileCtx reads that
+    mark; [rg_convert_refused] / [rg_create_refused]: ConvertCoinToEvm / CreateFunToken call the refusing guard before they
+    touch anything.  A tree WITHOUT them lets the nested handler run on the StateDB of the transaction being delivered and
+    commit it half-way: the EVM side of the nested conversion (the ERC20 mint) is then permanent even when the frame around
+    it is reverted, while the bank side (the escrow transfer, journaled in the precompile's cache context) is rolled back. *)
+Record reentry_guards := { rg_ctx_marked : bool; rg_convert_refused : bool; rg_create_refused : bool }.
+Definition model_reentry_guards : reentry_guards :=
+  {| rg_ctx_marked := true; rg_convert_refused := true; rg_create_refused := true |}.
+
+Definition convert_guarded (g : reentry_guards) : bool := rg_ctx_marked g && rg_convert_refused g.
+Definition create_guarded (g : reentry_guards) : bool := rg_ctx_marked g && rg_create_refused g.
+
+Definition exec_rg (g : reentry_guards) (s : st) (o : op) : option st :=
+  match o with
+  | WasmConvert w d x to => if convert_guarded g then None else exec s (ConvertCoinToEvm w d x to)
+  | WasmCreateCoin w d => if create_guarded g then None else exec s (CreateFromCoin w d)
+  | WasmCreateErc20 w t => if create_guarded g then None else exec s (CreateFromErc20 w t)
+  | _ => exec s o
+  end.
+
+(** what is left of an operation whose frame is reverted: nothing — unless an unguarded nested conversion committed the
+    running StateDB: then the ERC20 it minted (coin-born mapping) stays *)
+Definition survives_revert (g : reentry_guards) (s : st) (o : op) : st :=
+  match o with
+  | WasmConvert w d x to =>
+      if convert_guarded g then s
+      else match find_den s d, exec s (ConvertCoinToEvm w d x to) with
+           | Some m, Some _ => if m_coin m then match erc_mint s (m_tok m) to x with Some s' => s' | None => s end else s
+           | _, _ => s
+           end
+  | _ => s
+  end.
+
+Fixpoint step_rg (g : reentry_guards) (s : st) (o : op) : st * bool :=
+  match o with
+  | Framed f o' =>
+      let r := step_rg g s o' in
+      match f with
+      | FPlain => r
+      | FOnceThenReverted => if snd r then (survives_revert g (fst r) o', true) else r
+      | FRevertTop => (survives_revert g s o', false)
+      | FBadArgs | FOog => (s, false)
+      | FInnerRevert => (survives_revert g s o', true)
+      | FSwallow => (fst r, true)
+      end
+  | Seq o1 o2 =>
+      let r1 := step_rg g s o1 in
+      if snd r1 then
+        let r2 := step_rg g (fst r1) o2 in
+        if snd r2 then (fst r2, true) else (s, false)
+      else (s, false)
+  | _ => match exec_rg g s o with Some s' => (s', true) | None => (s, false) end
+  end.
